@@ -270,12 +270,14 @@ pub fn scenarios(thorough: bool) -> Vec<Scenario> {
     v.push(trio_merge_scenario("trio-merge", if thorough { 3 } else { 2 }, &[]));
     v.push(relay_scenario("trio-relay", if thorough { 6 } else { 5 }, &[]));
     // a commit after time travel that re-uses a value stored only in the pack of the abandoned branch
-    v.push(travel_reuse_scenario("pair-travel-reuse", if thorough { 5 } else { 4 }, &[]));
+    // (extra operations: after travelling back, the SAME document as an abandoned commit with other metadata: a
+    // block without a pack of its own whose values live in the pack of its abandoned sibling)
+    v.push(travel_reuse_scenario("pair-travel-reuse", if thorough { 5 } else { 3 }, &[Op::Upd(0, 1), Op::Commit(0, 1)]));
     // replica 1 lacks the tenth and eleventh commit of replica 0 (block indexes 10 and 11)
     v.push(many_commits_scenario("pair-many-commits", if thorough { 3 } else { 2 }, &[]));
     v.extend(cross_scenarios(thorough));
     // (the delivery-order probe is expensive: only the combinations that are about arrival of items)
-    v.extend(combo_scenarios(thorough).into_iter().filter(|s| s.name.contains("held-back") || s.name.contains("ring")));
+    v.extend(combo_scenarios(thorough).into_iter().filter(|s| s.name.contains("held-back") || s.name == "combo-ring" || s.name.contains("travelled")));
     v
 }
 
